@@ -23,11 +23,11 @@ theorem ptoks_flatten (xs : List (List Piece)) : ptoks xs.flatten = (xs.map ptok
   | cons x xs ih => simp [ptoks_append, ih]
 
 def instP (i : PInst) : List Piece :=
-  starP i.attrs ++ W4 ++ T (fixName i.mod) ++ W1 ++ paramP i.params ++ T (fixName i.name) ++ NL ++
+  starP i.attrs ++ W4 ++ N (fixName i.mod) ++ W1 ++ paramP i.params ++ N (fixName i.name) ++ NL ++
     (W4 ++ T "(" ++ NL ++ List.intercalate (T "," ++ NL) (i.conns.map connP) ++ NL ++ W4 ++ T ")" ++ T ";") ++ NL
 
 theorem chars_instP (i : PInst) : pchars (instP i) = (instLine i).toList := by
-  simp only [instP, instLine, pchars_append, chars_starP, chars_W4, chars_W1, chars_T, chars_paramP, chars_NL,
+  simp only [instP, instLine, pchars_append, chars_starP, chars_W4, chars_W1, chars_T, chars_N, chars_paramP, chars_NL,
     pchars_intercalate, String.toList_append, String.toList_intercalate, List.map_map]
   have h1 : "    (\n".toList = "    ".toList ++ "(".toList ++ "\n".toList := by decide
   have h2 : "\n    );".toList = "\n".toList ++ "    ".toList ++ ")".toList ++ ";".toList := by decide
@@ -50,7 +50,7 @@ theorem sepConns_eq : ∀ (a : List (String × XExpr)), sepConns a = List.interc
 
 theorem toks_instP (i : PInst) : ptoks (instP i) = (SItem.inst i.toN).toks := by
   simp only [instP, SItem.toks, SItem.attrs, SItem.core, PInst.toN, instCore, ptoks_append, toks_starP, toks_W4, toks_W1,
-    toks_T, toks_paramP, toks_NL, ptoks_intercalate, List.append_nil, List.map_map, sepConns_eq, nameT]
+    toks_T, toks_N, toks_paramP, toks_NL, ptoks_intercalate, List.append_nil, List.map_map, sepConns_eq, nameT]
   have hm : i.conns.map (ptoks ∘ connP) = i.conns.map (connToks ∘ fun c => (c.1, toXE c.2)) := by
     apply List.map_congr_left
     intro x _
@@ -62,25 +62,25 @@ theorem toks_instP (i : PInst) : ptoks (instP i) = (SItem.inst i.toN).toks := by
 
 def modP (m : WModP) : List Piece :=
   starP m.attrs ++
-    (T "module" ++ W1 ++ T (fixName m.name) ++ NL ++ T "(" ++
-      List.intercalate (T ",") (m.ports.map (fun p => NL ++ W4 ++ T (fixName p.name))) ++ NL ++ T ")" ++ T ";" ++ NL ++ NL) ++
+    (T "module" ++ W1 ++ N (fixName m.name) ++ NL ++ T "(" ++
+      List.intercalate (T ",") (m.ports.map (fun p => NL ++ W4 ++ N (fixName p.name))) ++ NL ++ T ")" ++ T ";" ++ NL ++ NL) ++
     ((m.ports.map portP).flatten ++ NL) ++
     (((m.wires.map wireP).flatten ++ NL) ++ (m.insts.map instP).flatten) ++
     T "endmodule" ++ NL ++ NL
 
 theorem chars_modP (m : WModP) : pchars (modP m) = (renderMod m).toList := by
-  simp only [modP, renderMod, pchars_append, chars_starP, chars_T, chars_W1, chars_NL, pchars_intercalate, pchars_flatten,
+  simp only [modP, renderMod, pchars_append, chars_starP, chars_T, chars_N, chars_W1, chars_NL, pchars_intercalate, pchars_flatten,
     String.toList_append, String.toList_intercalate, toList_join, List.map_map]
   have h1 : "module ".toList = "module".toList ++ " ".toList := by decide
   have h2 : "\n);\n".toList = "\n".toList ++ ")".toList ++ ";".toList ++ "\n".toList := by decide
   have h3 : "\n\n".toList = "\n".toList ++ "\n".toList := by decide
   have h4 : "".toList = [] := rfl
   rw [h1, h2, h3, h4]
-  have hm1 : m.ports.map (pchars ∘ fun p => NL ++ W4 ++ T (fixName p.name)) =
+  have hm1 : m.ports.map (pchars ∘ fun p => NL ++ W4 ++ N (fixName p.name)) =
       m.ports.map (String.toList ∘ (fun s => "\n" ++ s) ∘ fun p => "    " ++ fixName p.name) := by
     apply List.map_congr_left
     intro p _
-    simp only [Function.comp, pchars_append, chars_NL, chars_W4, chars_T, String.toList_append, List.append_assoc]
+    simp only [Function.comp, pchars_append, chars_NL, chars_W4, chars_T, chars_N, String.toList_append, List.append_assoc]
   have hm2 : m.ports.map (pchars ∘ portP) = m.ports.map (String.toList ∘ portLine) := by
     apply List.map_congr_left; intro p _; exact chars_portP p
   have hm3 : m.wires.map (pchars ∘ wireP) = m.wires.map (String.toList ∘ wireLine) := by
@@ -99,13 +99,13 @@ theorem sepNames_eq : ∀ (a : List String), sepNames a = List.intercalate [","]
     rw [ih]; simp
 
 theorem toks_modP (m : WModP) (hd : ∀ p ∈ m.ports, p.dir ≠ .undef) : ptoks (modP m) = tokensOf m.toI := by
-  simp only [modP, tokensOf, modToks, WModP.toI, WModI.sitems, ptoks_append, toks_starP, toks_T, toks_W1, toks_NL,
+  simp only [modP, tokensOf, modToks, WModP.toI, WModI.sitems, ptoks_append, toks_starP, toks_T, toks_N, toks_W1, toks_NL,
     ptoks_intercalate, ptoks_flatten, List.append_nil, List.map_map, sepNames_eq, List.flatMap_append, List.nil_append]
-  have hm1 : m.ports.map (ptoks ∘ fun p => NL ++ W4 ++ T (fixName p.name)) =
+  have hm1 : m.ports.map (ptoks ∘ fun p => NL ++ W4 ++ N (fixName p.name)) =
       m.ports.map ((fun x => [nameT x]) ∘ fun p => p.name) := by
     apply List.map_congr_left
     intro p _
-    simp [ptoks_append, toks_NL, toks_W4, toks_T, nameT]
+    simp [ptoks_append, toks_NL, toks_W4, toks_T, toks_N, nameT]
   have hm2 : (m.ports.map (ptoks ∘ portP)).flatten = (m.ports.map SItem.port).flatMap SItem.toks := by
     rw [List.flatMap_def, List.map_map]
     congr 1
